@@ -88,6 +88,7 @@ func (w *valWorld) endBlockWithPlan(p c14Plan) error {
 	// model: everybody leaves, the plan's validator is the only one
 	w.bonded = map[string]int{string(w.ops[p.opI]): p.keyI}
 	w.keyOf = map[string]int{string(w.ops[p.opI]): p.keyI}
+	w.pow = map[string]int64{string(w.ops[p.opI]): 1}
 	w.pending, w.zeroed = map[string]int{}, map[string]bool{}
 	w.logf("endblock h=%d PLAN(op%d,key%d,%d executors) updates=[%s] -> engine set {%s}", l2.Ctx.BlockHeight(), p.opI, p.keyI, len(p.executors), renderUpdates(updates), henv.RenderPowerMap(l2.MirrorMap()))
 	if err := w.invariants(); err != nil {
@@ -118,7 +119,13 @@ func TestC14Rapid(t *testing.T) {
 		c := rec.Begin()
 		nGen := rapid.IntRange(1, 3).Draw(rt, "genesis")
 		maxVals := uint32(rapid.IntRange(nGen, 5).Draw(rt, "max"))
-		w, err := newValWorld(nGen, maxVals, uint32(rapid.SampledFrom([]int{0, 2, 100}).Draw(rt, "retention")))
+		var gp []int64
+		if rapid.IntRange(0, 2).Draw(rt, "genesisPowers") == 0 {
+			for j := 0; j < nGen; j++ {
+				gp = append(gp, int64(rapid.SampledFrom([]int{1, 3, 10}).Draw(rt, "gpower")))
+			}
+		}
+		w, err := newValWorld(nGen, maxVals, uint32(rapid.SampledFrom([]int{0, 2, 100}).Draw(rt, "retention")), gp...)
 		if err != nil {
 			rt.Fatalf("genesis: %v", err)
 		}
@@ -149,7 +156,11 @@ func TestC14Rapid(t *testing.T) {
 						rt.Fatalf("C13 violated: %v\nhistory:\n%s", err, w.history())
 					}
 				case "plan":
-					p := c14Plan{height: h + uint64(rapid.IntRange(0, 3).Draw(rt, "ahead")), opI: rapid.IntRange(0, nValOps-1).Draw(rt, "pop"), keyI: rapid.IntRange(0, nValKeys+1).Draw(rt, "pkey")}
+					ahead := rapid.IntRange(-3, 3).Draw(rt, "ahead") // negative: a plan for a height that has already passed never runs
+					if int64(h)+int64(ahead) < 1 {
+						ahead = 0
+					}
+					p := c14Plan{height: uint64(int64(h) + int64(ahead)), opI: rapid.IntRange(0, nValOps-1).Draw(rt, "pop"), keyI: rapid.IntRange(0, nValKeys+1).Draw(rt, "pkey")}
 					for k := rapid.IntRange(0, 3).Draw(rt, "nexec"); k > 0; k-- {
 						p.executors = append(p.executors, rapid.SampledFrom(candExecs).Draw(rt, "exec"))
 					}
@@ -161,6 +172,9 @@ func TestC14Rapid(t *testing.T) {
 					}
 					if err == nil {
 						plans[p.height] = p
+						if ahead < 0 {
+							c.Class("plan-registered-for-a-past-height")
+						}
 					}
 				case "badplan":
 					tableBefore := fmt.Sprint(sortedPlanHeights(l2))
